@@ -10,9 +10,10 @@ import numpy as np
 from ..common import Slice, inds_pairs, inds_tok, pop_pairs, run_driver
 
 MODULE = 'PyhmsVerif.Props.C12Run'
-THEOREMS = ['C12.sea_never_loses', 'C12.sea_size', 'C12.de_pointwise', 'C12.deSelect_perm', 'C12.de_count_dominates', 'C12.de_size', 'C12.C12_run', 'C12.C12_best_never_worse', 'PairChain.reachable_pairs', 'PairChain.step_inv', 'C12.elitePair_spec']
+THEOREMS = ['C12.sea_never_loses', 'C12.sea_size', 'C12.de_pointwise', 'C12.deSelect_perm', 'C12.de_count_dominates', 'C12.de_size', 'C12.C12_run', 'C12.C12_best_never_worse', 'PairChain.reachable_pairs', 'PairChain.step_inv', 'C12.elitePair_spec', 'EngineDE.deGen_size']
+EXTRA_MODULES = ['PyhmsVerif.Props.EngineDE']
 LEVEL = "proof"
-LEVEL_TEXT = 'Theorems for all populations, tie patterns and both directions: SEA selection with >=1 elite never loses the best (for every admissible argsort tie-break), DE/SHADE replacement dominates index-wise and in every order statistic (counting form), sizes preserved; kernels tied to Population.topk / select_new_population / DE.run / SHADE.run by differential runs; consecutive generations of real demes are monitored on traced runs. NEW (run level): C12_run — in every reachable state, for every deme of a population engine and every consecutive pair of generations (a, b) of its history (inside a metaepoch and across metaepoch boundaries): on an elitist level no individual of a is strictly better than every individual of b, on a DE/SHADE level no order statistic gets worse, and b has the configured size (CMA: the size of a); C12_best_never_worse: the best fitness never gets worse from one generation to the next. Proved through a generic inductive invariant over consecutive generation pairs (PairChain) whose step obligation is discharged by the model acceptance test genOk with the parents the model threaded.'
+LEVEL_TEXT = 'Theorems for all populations, tie patterns and both directions: SEA selection with >=1 elite never loses the best (for every admissible argsort tie-break), DE/SHADE replacement dominates index-wise and in every order statistic (counting form), sizes preserved; kernels tied to Population.topk / select_new_population / DE.run / SHADE.run by differential runs; consecutive generations of real demes are monitored on traced runs. NEW (run level): C12_run — in every reachable state, for every deme of a population engine and every consecutive pair of generations (a, b) of its history (inside a metaepoch and across metaepoch boundaries): on an elitist level no individual of a is strictly better than every individual of b, on a DE/SHADE level no order statistic gets worse, and b has the configured size (CMA: the size of a); C12_best_never_worse: the best fitness never gets worse from one generation to the next. Proved through a generic inductive invariant over consecutive generation pairs (PairChain) whose step obligation is discharged by the model acceptance test genOk with the parents the model threaded. ENGINE LEVEL (Model/Engine.lean, Props/EngineDE.lean): one whole generation of DE.run / SHADE.run is in the model, deterministic given the generator draws (donor arithmetic in binary64, reflect repair, crossover mask incl. the row-zeroing quirk, fitness carry-over, which rows are evaluated, replacement), and is diffed bit-exactly against the real engines with recorded draws: deGen_size — one trial per parent, the new population has the parents size; the replacement is Select.deSelect, so de_pointwise / de_count_dominates apply to every whole generation.'
 LEVEL_NOTE = "Trusted: Lean kernel + standard axioms; objective values not NaN; np.argsort returns some ascending order (ties arbitrary). The lift from one selection step to every consecutive generation pair of a run relies on C11 (generations chain) which is checked by trace refinement."
 TECHNIQUE = "Lean 4 proof (relational spec covering all tie-breaks) + differential correspondence + run monitors"
 RULE = "component cases: random populations (size 2-14, dim 1-4) with plateaus/ties/+-inf sentinels, both directions; non-trivial = fitness tie at the selection cut or a trial tying its parent or a sentinel present; distinct by the driver line. run cases: consecutive generation pairs of real elitist demes"
@@ -180,6 +181,9 @@ def run(ctx):
 
     out.append(refine.refine_batch(ctx, ctx.size(100, 1200), pid="C12", name="trace-refinement(Tree.step vs DemeTree.run)"))
     out.append(runs.monitor_batch(ctx, "C12", ctx.size(150, 2000), force=lambda rng: {"engines": {0: ["sea", "seax", "ga", "adapt", "de", "ded", "shade"]}}))
+    from .. import engine
+
+    out.append(engine.slice_engine(ctx, ctx.rng(81), ctx.size(250, 3000), only="C12/"))
     return out
 
 
